@@ -232,7 +232,8 @@ Definition optimize (fx : fixes) (rules : list rule) (code : list instr) : optio
 
 (* ------------------------------------------------------------------ instruction semantics *)
 Inductive item := IV (v : value) (c : bool) | IM (l : N) | IFn (id : N) (captured : bool).
-Inductive slot := SVal (v : value) | SFn (id : N) (captured : bool).
+Inductive slot := SVal (v : value) | SFn (id : N) (captured : bool)
+              | SUndef.      (* symbols.UndefinedValue: declared by SymbolCreate, not yet assigned *)
 Record st := { stk : list item; vars : list (str * slot); line : Z; out : list value }.
 Inductive rerr := RUnderflow | RVoid | RUnknown | ROperand | RArith (e : err) | RVarType (e : err) | RExists | ROOM.
 Definition fail : Type := (rerr * Z * list value)%type.      (* class, line, output so far *)
@@ -281,14 +282,21 @@ Definition increment_sum (fx : fixes) (m : mode) (v : value) (step : value * boo
 Definition cmp_of (o : opcode) : option N :=
   match o with LessThan => Some 0%N | LessThanOrEqual => Some 1%N | GreaterThan => Some 2%N
              | GreaterThanOrEqual => Some 3%N | Equal => Some 4%N | NotEqual => Some 5%N | _ => None end.
-(* comparison of two fetched terms: same-kind integers, strings and bools; anything else is outside the model *)
+(* comparison of two fetched terms (getComparisonTerms + the opcode body) on integers, and == != on bools.
+   Same kind: compared as they are.  Different kinds: when one term is a constant, or outside strict mode, the
+   term of the lower kind is converted to the higher kind (data.Coerce = wrap) and the two are compared;
+   two typed terms of different kinds are a type mismatch in strict mode.  Anything else is outside the model. *)
+Definition cmp_z (c : N) (a b : Z) : bool :=
+  match c with 0%N => Z.ltb a b | 1%N => Z.leb a b | 2%N => Z.ltb b a | 3%N => Z.leb b a
+             | 4%N => Z.eqb a b | _ => negb (Z.eqb a b) end.
 Definition compare_terms (m : mode) (c : N) (x y : value * bool) : res value :=
   match fst x, fst y with
   | VInt k a, VInt k' b =>
-      if ikind_eqb k k' then
-        Ok (VBool (match c with 0%N => Z.ltb a b | 1%N => Z.leb a b | 2%N => Z.ltb b a | 3%N => Z.leb b a
-                           | 4%N => Z.eqb a b | _ => negb (Z.eqb a b) end))
-      else OOM
+      if ikind_eqb k k' then Ok (VBool (cmp_z c a b))
+      else if snd x || snd y || negb (is_strict m) then
+        let kk := if (irank k <? irank k')%Z then k' else k in
+        Ok (VBool (cmp_z c (wrap kk a) (wrap kk b)))
+      else Err ETypeMismatch
   | VBool a, VBool b => match c with 4%N => Ok (VBool (Bool.eqb a b)) | 5%N => Ok (VBool (negb (Bool.eqb a b))) | _ => OOM end
   | _, _ => OOM
   end.
@@ -325,7 +333,14 @@ Definition exec (fx : fixes) (m : mode) (i : instr) (s : st) : xres :=
       match (if str_eqb n underscore then None else var_get (vars s) n) with
       | Some (SVal v) => XCont (set_stk s (IV v false :: stk s)) None
       | Some (SFn id c) => XCont (set_stk s (IFn id c :: stk s)) None
+      | Some SUndef => oom
       | None => XFail (err_at s RUnknown)
+      end
+  | (SymbolCreate, OV (VStr n)) =>
+      (* symbolCreateByteCode: c.create(name) fails when the (single, flat) scope already has the name *)
+      match var_get (vars s) n with
+      | Some _ => XFail (err_at s RExists)
+      | None => XCont (set_vars s ((n, SUndef) :: vars s)) None
       end
   | (Store, OV (VStr n)) =>
       match stk s with
